@@ -163,6 +163,74 @@ theorem emit_den_exact (es : List Edge) (mag lt t : Int) (hs : SortedT es)
         have e2 : mag + e.delta + sumLe t es = mag + (e.delta + sumLe t es) := by omega
         rw [e1, e2]
 
+/-! ### the literal loop equals `emit` -/
+
+theorem updLast_append_single (f : Seg → Seg) (done : List Seg) (x : Seg) :
+    updLast f (done ++ [x]) = done ++ [f x] := by
+  induction done with
+  | nil => rfl
+  | cons d ds ih =>
+    cases ds with
+    | nil => rfl
+    | cons d2 ds2 =>
+      simp only [List.cons_append] at ih ⊢
+      simp only [updLast]
+      rw [ih]
+
+/-- Loop invariant of `Sum`: `result = done ++ [open element with Length == nil]`. -/
+theorem sumGo_invariant (es : List Edge) (done : List Seg) (mag lt : Int) :
+    trimLast (es.foldl sumGoStep (done ++ [⟨mag, none⟩], lt)).1 = done ++ emit mag lt es := by
+  induction es generalizing done mag lt with
+  | nil =>
+    simp only [List.foldl_nil, trimLast, List.getLast?_append, List.getLast?_singleton, emit]
+    by_cases h : mag ≤ 0
+    · simp [h]
+    · simp [h]
+  | cons e es ih =>
+    simp only [List.foldl_cons]
+    have hstep : sumGoStep (done ++ [⟨mag, none⟩], lt) e =
+        if e.time - lt = 0 then (done ++ [⟨mag + e.delta, none⟩], lt)
+        else ((done ++ [⟨mag, some (e.time - lt)⟩]) ++ [⟨mag + e.delta, none⟩], e.time) := by
+      simp only [sumGoStep, List.length_append, List.length_cons, List.length_nil]
+      have hne : ¬ (done.length + (0 + 1) = 0) := by omega
+      simp only [hne, if_false, updLast_append_single, lastMagOf, List.getLast?_append,
+        List.getLast?_singleton]
+      simp
+    rw [hstep]
+    by_cases h0 : e.time - lt = 0
+    · simp only [h0, if_true, emit]
+      exact ih done (mag + e.delta) lt
+    · simp only [h0, if_false, emit]
+      have := ih (done ++ [⟨mag, some (e.time - lt)⟩]) (mag + e.delta) e.time
+      rw [this]
+      simp
+
+theorem sumGoEdges_eq (es : List Edge) : sumGoEdges es = sumEdges es := by
+  cases es with
+  | nil => simp [sumGoEdges, sumEdges, trimLast]
+  | cons e rest =>
+    unfold sumGoEdges
+    simp only [List.foldl_cons]
+    have hfirst : sumGoStep ([], 0) e =
+        if e.time - 0 = 0 then ([] ++ [⟨0 + e.delta, none⟩], 0)
+        else (([] ++ [⟨0, some (e.time - 0)⟩]) ++ [⟨0 + e.delta, none⟩], e.time) := by
+      simp only [sumGoStep, List.length_nil, if_true, List.nil_append]
+      by_cases h : e.time - 0 = 0
+      · simp [h, updLast]
+      · simp [h, updLast, lastMagOf]
+    rw [hfirst]
+    by_cases h0 : e.time - 0 = 0
+    · simp only [h0, if_true]
+      have := sumGo_invariant rest [] (0 + e.delta) 0
+      simp only [List.nil_append] at this ⊢
+      rw [this]
+      simp [sumEdges, emit, h0]
+    · simp only [h0, if_false]
+      have := sumGo_invariant rest ([] ++ [⟨0, some (e.time - 0)⟩]) (0 + e.delta) e.time
+      rw [this]
+      have h1 : ¬ e.time = 0 := by omega
+      simp [sumEdges, emit, h1]
+
 /-! ### edges of one list -/
 
 theorem edgesOf_time_ge (l : List Seg) (h : NonNeg l) (cur : Int) :
